@@ -65,3 +65,38 @@ func (m *U64Map) grow() {
 		}
 	}
 }
+
+// Counts is a tiny string-keyed counter table for harnesses whose callbacks run on several controlled threads (a
+// built-in map would be reported to the race detector even from the uninstrumented harness).
+type Counts struct {
+	keys []string
+	vals []int
+}
+
+func (c *Counts) Inc(key string) {
+	for i, k := range c.keys {
+		if k == key {
+			c.vals[i]++
+			return
+		}
+	}
+	c.keys = append(c.keys, key)
+	c.vals = append(c.vals, 1)
+}
+
+func (c *Counts) Get(key string) int {
+	for i, k := range c.keys {
+		if k == key {
+			return c.vals[i]
+		}
+	}
+	return 0
+}
+
+func (c *Counts) String() string {
+	s := ""
+	for i, k := range c.keys {
+		s += k + "=" + string(rune('0'+c.vals[i]%10)) + " "
+	}
+	return s
+}
